@@ -177,5 +177,24 @@ def check(ctx):
         all(c.id in M.cfg.reachable(st_logs[0].id, removed_nodes=yields) for c in cyc) and \
         all(cl[0].id in M.cfg.reachable(c.id, removed_nodes=yields) for c in cyc)
     ctx.check(ok, "T3-runner", mr, "STOP = final log(), then cycle() if keep and reuse, then close()", "the last records must be logged and flushed before the files close")
+    every_run_logs(ctx)
     defect_scope(ctx, "D-scope", [m for m in L.methods.values()] + [m for m in ctx.cls("logging", "Logger").methods.values()],
                  max_depth=1, floor=30, label="scope: Log and Logger methods")
+
+
+def every_run_logs(ctx):
+    """each run of the logger (START, RUN, the final log of STOP) gives every Log its turn: the rule methods decide what is
+    written, Logger.log decides nothing"""
+    ctx.rule("T3-everyrun", "Logger.log: `for log in self.logs: log()` is reached on every call (no return, raise or test before it)")
+    f = ctx.cls("logging", "Logger").own_method("log")
+    V = FuncView(ctx, f)
+    loops = [n for n in V.cfg.nodes if n.kind == "for" and src(V.sym(n.ast.iter, n)) == "self.logs"]
+    calls = [n for n in V.cfg.nodes if any(isinstance(x, ast.Call) and isinstance(x.func, ast.Name) and loops and
+                                           x.func.id == src(loops[0].ast.target) for x in V.cfg.walk_node(n))]
+    ok = bool(loops) and bool(calls)
+    if ok:
+        before = V.cfg.reachable(V.cfg.entry.id, removed_nodes=[loops[0].id])
+        ok = not any(V.cfg.nodes[i].kind in ("return", "raise", "test") for i in before) and V.cfg.exit.id not in before
+    ctx.check(ok, "T3-everyrun", f, "Logger.log runs every Log on every call",
+              "a run that is skipped (rate limit, status test) loses what only that run would have written: the `always` record of "
+              "that tick, the final record of STOP, the elements queued for streak/deck since the last run")
